@@ -85,6 +85,12 @@ func contractProps(fc *FuncContract) map[string]bool {
 	for _, s := range fc.Safety {
 		m[s] = true
 	}
+	if fc.Kernel {
+		m["C14"] = true
+	}
+	if fc.HasStates {
+		m["C06"] = true
+	}
 	return m
 }
 
@@ -95,6 +101,11 @@ func oblServes(o *Obligation, fc *FuncContract, id string) bool {
 				return true
 			}
 		}
+		return false
+	}
+	if id == "C06" || id == "C14" {
+		// structural properties: only their own labelled obligations (the
+		// arithmetic contracts of the same function belong to other properties)
 		return false
 	}
 	if safetyKinds[o.Kind] {
